@@ -27,20 +27,26 @@ pub fn main() {
         }
         i += 1;
     }
-    // replay files recorded by the debug-assertion build are replayed by that build
+    // replay files recorded by another build variant are replayed by that build
     if let Some(path) = &replay {
         if engine::variant() == "release" {
             let v: Option<serde_json::Value> = std::fs::read_to_string(path).ok().and_then(|s| serde_json::from_str(&s).ok());
-            if v.as_ref().and_then(|v| v["variant"].as_str()) == Some("debug-assertions") {
-                match std::env::var("VERIF_RELCHECK_BIN") {
+            let want = v.as_ref().and_then(|v| v["variant"].as_str()).unwrap_or("release").to_string();
+            let envvar = match want.as_str() {
+                "debug-assertions" => Some("VERIF_RELCHECK_BIN"),
+                "asan" => Some("VERIF_ASAN_BIN"),
+                _ => None,
+            };
+            if let Some(envvar) = envvar {
+                match std::env::var(envvar) {
                     Ok(bin) => {
                         use std::os::unix::process::CommandExt;
-                        let e = std::process::Command::new(bin).args(&args[1..]).env("VERIF_VARIANT", "debug-assertions").exec();
-                        eprintln!("cannot exec the debug-assertion build: {e}");
+                        let e = std::process::Command::new(bin).args(&args[1..]).env("VERIF_VARIANT", &want).env("ASAN_OPTIONS", "detect_leaks=0:abort_on_error=1:allocator_may_return_null=1").exec();
+                        eprintln!("cannot exec the {want} build: {e}");
                         std::process::exit(2);
                     }
                     Err(_) => {
-                        eprintln!("replay needs the debug-assertion build (run through bin/check)");
+                        eprintln!("replay needs the {want} build (run through bin/check; for asan: VERIF_ASAN=1 bin/check ...)");
                         std::process::exit(2);
                     }
                 }
